@@ -11,7 +11,7 @@ def c19(ctx):
     rep.rule("C19.R1", "CENSUS (shared with C18.R3): linting is panic-free: every panic/UB-capable construct reachable from "
              "Linter::run / standard_passes / cli::linter::lint is discharged, in both profiles")
     n = cr.census_for(ctx, "C19.R1", "C19", "linting", cr.roots_lint, only=in_linter)
-    rep.floor("C19.R1", n, 12, "census sites (both profiles)")
+    rep.floor("C19.R1", n, 8, "census sites (both profiles)")
 
 
 from .. import kind, kindtables as kt, tables  # noqa: E402
@@ -122,7 +122,7 @@ def structure_rules(ctx):
             rep.ob("C19.R3", "combine::appends-other-after-self#%d" % n_app, ok,
                    "" if ok else "combine appends with %s: destination from %s, elements from %s: diagnostics of `self` would not stay in front of those of `other`" % (
                        name, "self" if d_self else "other/unknown", "other" if s_other else "self/unknown"), comb.loc(t["line"]), how="self's vector .%s(other's elements)" % name)
-        rep.floor("C19.R3.appends", n_app, 2, "append operations in combine")
+        rep.floor("C19.R3.appends", n_app, 1, "append operations in combine")
     # ---- R4
     mu = F.fn(MP + "::match_or_update")
     if mu is None:
